@@ -86,6 +86,39 @@ pub fn composite_over_cache(o: &TreeSpec) -> bool {
   })
 }
 
+/// File name -> source content, for the files that at least one mapped
+/// segment refers to (a missing content counts as empty). Part of what a map
+/// or a chunk stream tells about "the same file".
+fn content_table(a: &Answer) -> Option<BTreeMap<String, String>> {
+  match a {
+    Answer::Map(Some(m)) => {
+      let used: std::collections::BTreeSet<&str> =
+        m.segs.iter().filter_map(|s| s.attr.as_ref().map(|a| a.file.as_str())).collect();
+      let mut t = BTreeMap::new();
+      for (i, name) in m.sources.iter().enumerate() {
+        // the attribution's file name has sourceRoot applied; compare by suffix
+        if used.iter().any(|u| u.ends_with(name.as_str())) {
+          t.insert(name.clone(), m.sources_content.get(i).cloned().unwrap_or_default());
+        }
+      }
+      Some(t)
+    }
+    Answer::Map(None) => Some(BTreeMap::new()),
+    Answer::Stream(st) => {
+      let used: std::collections::BTreeSet<&str> =
+        st.segs.iter().filter_map(|s| s.attr.as_ref().map(|a| a.file.as_str())).collect();
+      let mut t = BTreeMap::new();
+      for (name, content) in st.sources.values() {
+        if used.contains(name.as_str()) {
+          t.insert(name.clone(), content.clone().unwrap_or_default());
+        }
+      }
+      Some(t)
+    }
+    _ => None,
+  }
+}
+
 fn canon_is_empty(c: &Canon) -> bool {
   match c {
     Canon::Full(l) => l.iter().all(|r| r.is_empty()),
@@ -659,6 +692,22 @@ pub fn check_strict(
             true,
             format!("{} reports positions (end / attribution) differently from the same call on a cold value: got {} expected {}", who, a.brief(), e.brief()),
           );
+        } else if attribution && mode == StrictMode::C10 {
+          if let (Some(ta), Some(te)) = (content_table(a), content_table(e)) {
+            // only files that both answers attribute to (a lines-only map
+            // legitimately mentions fewer files than a full one)
+            let differs = ta.iter().any(|(f, c)| te.get(f).is_some_and(|c2| c2 != c));
+            if differs {
+              counters.inc("probe:sources_content_differs");
+              mismatch(
+                &mut violations,
+                &mut counters,
+                judge_class(&op.kind),
+                true,
+                format!("{} pairs the files it attributes to with other source contents than the same call on a cold value: got {:?} expected {:?}", who, ta, te),
+              );
+            }
+          }
         }
       }
     }
